@@ -392,11 +392,17 @@ func runFlow(w *World, rs *RunSpec) {
 					ops = append(ops, Op{Kind: OpPause, N: 810}, Op{Kind: OpRecvAll})
 					p.CallerRecv = ops
 					p.pausedReader = true
+					if c.Intn(3, "cancelstalled") == 0 {
+						p.cancelWhenStalled = "caller-paused"
+					}
 				}
 			case 2: // handler's reader parks until released
 				if shapeClientStreams(p.Shape) && len(p.HandlerSend) == 0 {
 					p.Handler = append([]Op{{Kind: OpPause, N: 810}}, p.Handler...)
 					p.pausedReader = true
+					if c.Intn(3, "cancelstalled") == 0 {
+						p.cancelWhenStalled = "handler-paused"
+					}
 				}
 			case 3:
 				p.CallerRecv = append([]Op{{Kind: OpSleep, D: time.Duration(1+c.Intn(20, "nap")) * time.Millisecond}}, p.CallerRecv...)
@@ -410,6 +416,9 @@ func runFlow(w *World, rs *RunSpec) {
 		if p.pausedReader {
 			d["paused_reader"] = true
 		}
+		if p.cancelWhenStalled != "" {
+			d["cancelled_when_stalled"] = p.cancelWhenStalled
+		}
 		if len(p.ReqSizes) > 50 || len(p.RespSizes) > 50 {
 			d["req_sizes"], d["resp_sizes"] = len(p.ReqSizes), len(p.RespSizes)
 		}
@@ -421,6 +430,22 @@ func runFlow(w *World, rs *RunSpec) {
 		// stalled: legitimate while consumers are parked; every other stream must have finished
 		simrt.Emit(simrt.Event{Kind: EvCheckpoint, S: "flow-stalled", S2: simrt.LiveStacks()})
 		simrt.Count(CntFaultReaderPause, 1)
+		// some of the stalled streams are cancelled by their callers while
+		// their senders wait for credit: each sender must be released by that
+		// and the tunnel must keep working for the others
+		cancelled := false
+		for _, p := range plans {
+			if p.cancelWhenStalled != "" && p.Res != nil && p.Res.CallerCancel != nil {
+				simrt.Count(CntFaultCancelRPC, 1)
+				simrt.Emit(simrt.Event{Kind: EvFault, S: "cancel-stalled-stream", A: int64(p.ID)})
+				p.Res.CallerCancel()
+				cancelled = true
+			}
+		}
+		if cancelled {
+			simrt.AwaitStall()
+			simrt.Emit(simrt.Event{Kind: EvCheckpoint, S: "flow-cancelled-settled", S2: simrt.LiveStacks()})
+		}
 		w.OpenGate(810)
 		if !cs.Wait() {
 			simrt.Emit(simrt.Event{Kind: EvCheckpoint, S: "flow-stalled-after-resume", S2: simrt.LiveStacks()})
@@ -452,10 +477,36 @@ func OracleFlowDone(w *World, h *History) {
 	if stall != 0 {
 		h.Derived["probe.window_full_observed"]++
 	}
+	var settled int64
+	for _, e := range h.Evs {
+		if e.Kind == EvCheckpoint && e.S == "flow-cancelled-settled" {
+			settled = e.Seq
+		}
+	}
 	for _, id := range h.RPCIDs {
 		r := h.RPCs[id]
 		if r.Plan == nil {
 			continue
+		}
+		if settled != 0 && r.Plan.cancelWhenStalled != "" {
+			h.Derived["probe.cancelled_while_window_full"]++
+			det := map[string]string{"where": "tunnel", "paused": r.Plan.cancelWhenStalled}
+			switch r.Plan.cancelWhenStalled {
+			case "caller-paused":
+				// the handler was sending into a full window: the cancellation must release it
+				for _, hr := range r.Handlers {
+					if hr.Start < settled && (hr.End == 0 || hr.End > settled) {
+						w.AddViolation("C05", "strand-after-cancel", fmt.Sprintf("rpc %d was cancelled by its caller while its handler waited for flow-control credit; everything settled (#%d) and the handler is still blocked", id, settled), det, settled)
+					}
+				}
+			case "handler-paused":
+				// the caller was sending into a full window
+				for _, o := range r.Ops {
+					if (o.Actor == "cs" || o.Actor == "c") && o.Inv < settled && (!o.Returned() || o.Ret > settled) {
+						w.AddViolation("C05", "strand-after-cancel", fmt.Sprintf("rpc %d was cancelled while its caller waited for flow-control credit in %s; everything settled (#%d) and the caller is still blocked", id, opNames[o.Op], settled), det, settled)
+					}
+				}
+			}
 		}
 		term := r.Terminal()
 		if stall != 0 && !r.Plan.pausedReader && (term == nil || term.Ret > stall) {
